@@ -1242,4 +1242,858 @@ theorem nodeList_proper (hf : HashFns) (L : List Bytes) : ∀ (n : Nat) (s : Lis
           · rw [← hsub, List.take_of_length_le (by simp; omega), List.take_of_length_le (by simp; omega)]
 
 
+/-! ### `getSiblingHashes` for one leaf -/
+
+theorem removeIdx_single (x : Nat) : removeIdx [x] x = [] := by simp [removeIdx]
+
+theorem sib_pos_lt {n i l l' h : Nat} (hl' : l' ≤ l) (hl : l + 1 ≤ h - 1) (hnH : n ≤ 2 ^ (h - 1))
+    (hlt : sibOf (i / 2 ^ l) * 2 ^ l < n) : sibOf (i / 2 ^ l) * 2 ^ (l - l') < 2 ^ (h - 1 - l') := by
+  have hp : sibOf (i / 2 ^ l) * 2 ^ (l - l') * 2 ^ l' = sibOf (i / 2 ^ l) * 2 ^ l := by
+    rw [Nat.mul_assoc, ← Nat.pow_add]; congr 2; omega
+  have h3 : sibOf (i / 2 ^ l) * 2 ^ (l - l') * 2 ^ l' < 2 ^ (h - 1 - l') * 2 ^ l' := by
+    rw [hp, ← Nat.pow_add, show h - 1 - l' + l' = h - 1 by omega]
+    omega
+  exact Nat.lt_of_mul_lt_mul_right h3
+
+/-- the (descended) index of the sibling is not one of the ancestors of the leaf -/
+theorem sib_idx_ne {i l l' h s : Nat} (hl' : l' ≤ l) (hlh : l ≤ h) (hiH : i < 2 ^ h) (hs : s ≤ h)
+    (hk' : sibOf (i / 2 ^ l) * 2 ^ (l - l') < 2 ^ (h - l')) :
+    nodeIdx h i s ≠ 2 ^ (h - l') + sibOf (i / 2 ^ l) * 2 ^ (l - l') := by
+  intro e
+  obtain ⟨e1, e2⟩ := nodeIdx_inj_layer h i s l' _ hiH hs (by omega) hk' e
+  subst e1
+  have : i / 2 ^ s / 2 ^ (l - s) = sibOf (i / 2 ^ l) := by
+    rw [e2, Nat.mul_div_cancel _ (Nat.pow_pos (by decide))]
+  rw [Nat.div_div_eq_div_mul, ← Nat.pow_add, show s + (l - s) = l by omega] at this
+  exact sibOf_ne _ this.symm
+
+theorem siblingLoop_single (hf : HashFns) (t : Tree) (L : List Bytes) (hst : Stored hf t L) (i : Nat)
+    (hi : i < L.length) :
+    ∀ (f l : Nat) (acc : List Bytes), l ≤ getHeight L.length - 1 → getHeight L.length - 1 - l < f →
+      siblingLoop t (layerStructure L.length) L.length (getHeight L.length) [nodeIdx (getHeight L.length) i 0] f
+          [nodeIdx (getHeight L.length) i l] acc
+        = some (acc ++ sibsFrom hf L i (getHeight L.length - 1 - l) l) ∨
+      (siblingLoop t (layerStructure L.length) L.length (getHeight L.length) [nodeIdx (getHeight L.length) i 0] f
+          [nodeIdx (getHeight L.length) i l] acc = none ∧ 30 < getHeight L.length) := by
+  have hn : 1 ≤ L.length := by omega
+  have hh1 : 1 ≤ getHeight L.length := by simp [getHeight]
+  have hi1 := lt_pow_height hn hi
+  have hnH : L.length ≤ 2 ^ (getHeight L.length - 1) := by
+    have := le_two_pow_clog2 L.length hn
+    simpa [getHeight] using this
+  generalize hH : getHeight L.length = h at hh1 hi1 hnH
+  have hiH : i < 2 ^ h := Nat.lt_of_lt_of_le hi1 (Nat.pow_le_pow_right (by decide) (by omega))
+  intro f
+  induction f with
+  | zero => intro l acc _ h2; omega
+  | succ f ih =>
+    intro l acc hl hfuel
+    simp only [siblingLoop]
+    have hc1 : (nodeIdx h i l % 2 == 0 && false) = false := by simp
+    rw [hc1]
+    simp only [Bool.false_eq_true, if_false]
+    by_cases h2 : nodeIdx h i l = 2
+    · have hl' : l = h - 1 := (nodeIdx_eq_two _ i l hh1 hi1 (by omega)).1 h2
+      left
+      simp only [h2, beq_self_eq_true, if_true]
+      rw [hl', Nat.sub_self]; simp [sibsFrom]
+    · have hne : (nodeIdx h i l == 2) = false := by simpa using h2
+      have hl2 : l + 1 ≤ h - 1 := by
+        have : l ≠ h - 1 := fun e => h2 ((nodeIdx_eq_two _ i l hh1 hi1 (by omega)).2 e)
+        omega
+      simp only [hne, Bool.false_eq_true, if_false]
+      have hfuelw : h - 1 - l = (h - 1 - (l + 1)) + 1 := by omega
+      cases hloc : newLoc (nodeIdx h i l) h with
+      | none =>
+        right
+        refine ⟨rfl, ?_⟩
+        rcases Nat.lt_or_ge 30 h with hb | hb
+        · exact hb
+        · rw [newLoc_nodeIdx_some h i l hi1 (by omega) hb] at hloc; cases hloc
+      | some loc =>
+        have hlocv := newLoc_nodeIdx _ i l hiH (by omega) loc hloc
+        subst hlocv
+        simp only
+        rw [removeIdx_single, nodeIdx_half _ i l (by omega), insertIdx_nil]
+        by_cases hlt : sibOf (i / 2 ^ l) * 2 ^ l < L.length
+        · obtain ⟨l', hl', hr, hpr, hblk⟩ := rsi_some L (i / 2 ^ l) l hlt
+          rw [hr]
+          simp only
+          have hk' := sib_pos_lt hl' hl2 hnH hlt
+          cases hsidx : locIndex (l', sibOf (i / 2 ^ l) * 2 ^ (l - l')) h with
+          | none =>
+            right
+            refine ⟨rfl, ?_⟩
+            rcases Nat.lt_or_ge 30 h with hb | hb
+            · exact hb
+            · rw [locIndex_some h l' _ (by omega) hk' hb] at hsidx; cases hsidx
+          | some sidx =>
+            have hsidxv := locIndex_eq h l' _ sidx (by omega) hk' hsidx
+            subst hsidxv
+            simp only
+            have hk2 : sibOf (i / 2 ^ l) * 2 ^ (l - l') < 2 ^ (h - l') :=
+              Nat.lt_of_lt_of_le hk' (Nat.pow_le_pow_right (by decide) (by omega))
+            have hnc : ([nodeIdx h i 0].contains (2 ^ (h - l') + sibOf (i / 2 ^ l) * 2 ^ (l - l'))) = false := by
+              have := sib_idx_ne (s := 0) hl' (by omega) hiH (by omega) hk2
+              simp only [List.contains_cons, List.contains_nil, Bool.or_false, beq_eq_false_iff_ne]
+              exact fun e => this e.symm
+            rw [hnc]
+            simp only [Bool.false_eq_true, if_false]
+            rw [hst _ _ hpr, hblk]
+            simp only
+            have := ih (l + 1) (acc ++ [rootH hf (blk L l (sibOf (i / 2 ^ l)))]) hl2 (by omega)
+            rw [hfuelw]
+            simp only [sibsFrom, if_pos hlt]
+            rcases this with h | h
+            · left; rw [h]; simp
+            · right; exact h
+        · rw [rsi_none _ _ _ (by omega)]
+          simp only
+          have := ih (l + 1) acc hl2 (by omega)
+          rw [hfuelw]
+          simp only [sibsFrom, if_neg hlt, List.nil_append]
+          exact this
+
+
+/-! ### `calculatePathNodes` for one leaf: the whole result map -/
+
+theorem lookup_none_of_forall {m : List (Nat × Bytes)} {k : Nat} (h : ∀ v, m.lookup k = some v → False) :
+    m.lookup k = none := by
+  cases e : m.lookup k with
+  | none => rfl
+  | some v => exact absurd e (fun e => h v e)
+
+/-- the node `(s, i / 2^s)` is a full block -/
+def fullAt (n i s : Nat) : Prop := (i / 2 ^ s + 1) * 2 ^ s ≤ n
+
+theorem fullAt_succ_sib {n i l : Nat} (h : fullAt n i (l + 1)) : sibOf (i / 2 ^ l) * 2 ^ l < n := by
+  unfold fullAt at h
+  rw [div_pow_succ, Nat.pow_succ] at h
+  generalize i / 2 ^ l = k at h ⊢
+  have hp : 0 < 2 ^ l := Nat.pow_pos (by decide)
+  have h1 : sibOf k + 1 ≤ (k / 2 + 1) * 2 := by unfold sibOf; split <;> omega
+  have h2 : (sibOf k + 1) * 2 ^ l ≤ (k / 2 + 1) * 2 * 2 ^ l := Nat.mul_le_mul_right _ h1
+  have e : (k / 2 + 1) * 2 * 2 ^ l = (k / 2 + 1) * (2 ^ l * 2) := by ring
+  rw [e, Nat.add_mul, Nat.one_mul] at h2
+  omega
+
+theorem calcLoop_single_exact (hf : HashFns) (M : List Bytes) (i : Nat) (hi : i < M.length) (extra : List Bytes) :
+    ∀ (f l : Nat) (result cache res : List (Nat × Bytes)), l ≤ getHeight M.length - 1 →
+      (∀ key v, result.lookup key = some v →
+        ∃ s, s ≤ l ∧ key = nodeIdx (getHeight M.length) i s ∧ v = rootH hf (blk M s (i / 2 ^ s))) →
+      (∀ s, s ≤ l → fullAt M.length i s →
+        result.lookup (nodeIdx (getHeight M.length) i s) = some (rootH hf (blk M s (i / 2 ^ s)))) →
+      look result cache (nodeIdx (getHeight M.length) i l) = some (rootH hf (blk M l (i / 2 ^ l))) →
+      getHeight M.length - 1 - l < f →
+      calcLoop hf (layerStructure M.length) M.length (getHeight M.length) f [nodeIdx (getHeight M.length) i l]
+        result cache (sibsFrom hf M i (getHeight M.length - 1 - l) l ++ extra) = some res →
+      (∀ key v, res.lookup key = some v →
+        ∃ s, s ≤ getHeight M.length - 1 ∧ key = nodeIdx (getHeight M.length) i s ∧ v = rootH hf (blk M s (i / 2 ^ s))) ∧
+      (∀ s, s ≤ getHeight M.length - 1 → fullAt M.length i s →
+        res.lookup (nodeIdx (getHeight M.length) i s) = some (rootH hf (blk M s (i / 2 ^ s)))) := by
+  have hn : 1 ≤ M.length := by omega
+  have hh1 : 1 ≤ getHeight M.length := by simp [getHeight]
+  have hi1 := lt_pow_height hn hi
+  have hnH : M.length ≤ 2 ^ (getHeight M.length - 1) := by
+    have := le_two_pow_clog2 M.length hn
+    simpa [getHeight] using this
+  generalize hH : getHeight M.length = h at hh1 hi1 hnH
+  have hiH : i < 2 ^ h := Nat.lt_of_lt_of_le hi1 (Nat.pow_le_pow_right (by decide) (by omega))
+  intro f
+  induction f with
+  | zero => intro l result cache res _ _ _ _ hfuel _; omega
+  | succ f ih =>
+    intro l result cache res hl hkeys hfull hlook hfuel hcalc
+    simp only [calcLoop] at hcalc
+    by_cases h2 : nodeIdx h i l = 2
+    · have hl' : l = h - 1 := (nodeIdx_eq_two _ i l hh1 hi1 (by omega)).1 h2
+      simp only [h2, beq_self_eq_true, if_true] at hcalc
+      cases hcalc
+      subst hl'
+      exact ⟨hkeys, hfull⟩
+    · have hne : (nodeIdx h i l == 2) = false := by simpa using h2
+      have hl2 : l + 1 ≤ h - 1 := by
+        have : l ≠ h - 1 := fun e => h2 ((nodeIdx_eq_two _ i l hh1 hi1 (by omega)).2 e)
+        omega
+      simp only [hne] at hcalc
+      rw [hlook] at hcalc
+      simp only [Bool.false_eq_true, if_false] at hcalc
+      cases hloc : newLoc (nodeIdx h i l) h with
+      | none => rw [hloc] at hcalc; cases hcalc
+      | some loc =>
+        have hlocv := newLoc_nodeIdx _ i l hiH (by omega) loc hloc
+        subst hlocv
+        rw [hloc] at hcalc
+        simp only at hcalc
+        have hparent : nodeIdx h i l / 2 = nodeIdx h i (l + 1) := nodeIdx_half _ i l (by omega)
+        have hpnone : result.lookup (nodeIdx h i (l + 1)) = none := by
+          apply lookup_none_of_forall
+          intro v hv
+          obtain ⟨s, hs, hs2, _⟩ := hkeys _ v hv
+          have := nodeIdx_lt h i l s hiH hs (by omega)
+          omega
+        have hfuelw : h - 1 - l = (h - 1 - (l + 1)) + 1 := by omega
+        have hk : i / 2 ^ l * 2 ^ l < M.length := Nat.lt_of_le_of_lt (Nat.div_mul_le_self _ _) hi
+        have hpar := rootH_blk_parent hf M l (i / 2 ^ l) hk
+        rw [← div_pow_succ] at hpar
+        rw [hparent, insertIdx_nil, hfuelw] at hcalc
+        simp only [sibsFrom] at hcalc
+        by_cases hlt : sibOf (i / 2 ^ l) * 2 ^ l < M.length
+        · obtain ⟨l', hl', hr, _, _⟩ := rsi_some M (i / 2 ^ l) l hlt
+          rw [hr] at hcalc
+          simp only at hcalc
+          have hk' := sib_pos_lt hl' hl2 hnH hlt
+          cases hsidx : locIndex (l', sibOf (i / 2 ^ l) * 2 ^ (l - l')) h with
+          | none => rw [hsidx] at hcalc; cases hcalc
+          | some sidx =>
+            have hsidxv := locIndex_eq h l' _ sidx (by omega) hk' hsidx
+            subst hsidxv
+            rw [hsidx] at hcalc
+            simp only at hcalc
+            have hk2 : sibOf (i / 2 ^ l) * 2 ^ (l - l') < 2 ^ (h - l') :=
+              Nat.lt_of_lt_of_le hk' (Nat.pow_le_pow_right (by decide) (by omega))
+            have hsnone : result.lookup (2 ^ (h - l') + sibOf (i / 2 ^ l) * 2 ^ (l - l')) = none := by
+              apply lookup_none_of_forall
+              intro v hv
+              obtain ⟨s, hs, hs2, _⟩ := hkeys _ v hv
+              exact sib_idx_ne hl' (by omega) hiH (by omega) hk2 hs2.symm
+            rw [if_pos hlt] at hcalc hpar
+            simp only [List.cons_append, List.nil_append, takeSibling, hsnone, parentConflict, hpnone,
+              Bool.false_eq_true, if_false] at hcalc
+            have hmod := nodeIdx_mod2 h i l (by omega)
+            rw [hmod] at hcalc
+            have hph : (if (i / 2 ^ l % 2 == 0) = true then
+                  hf.branch (rootH hf (blk M l (i / 2 ^ l))) (rootH hf (blk M l (sibOf (i / 2 ^ l))))
+                else hf.branch (rootH hf (blk M l (sibOf (i / 2 ^ l)))) (rootH hf (blk M l (i / 2 ^ l))))
+                = rootH hf (blk M (l + 1) (i / 2 ^ (l + 1))) := by
+              rw [hpar]; by_cases hev : i / 2 ^ l % 2 = 0 <;> simp [hev]
+            rw [hph] at hcalc
+            refine ih (l + 1) _ cache res hl2 ?_ ?_ ?_ (by omega) hcalc
+            · intro key v hv
+              by_cases hkey : key = nodeIdx h i (l + 1)
+              · subst hkey
+                rw [lookup_mapSet_self] at hv
+                exact ⟨l + 1, Nat.le_refl _, rfl, (Option.some.inj hv).symm⟩
+              · rw [lookup_mapSet_ne _ _ _ _ hkey] at hv
+                obtain ⟨s, hs, hs2, hs3⟩ := hkeys key v hv
+                exact ⟨s, by omega, hs2, hs3⟩
+            · intro s hs hfs
+              by_cases hsl : s = l + 1
+              · subst hsl; exact lookup_mapSet_self _ _ _
+              · have hne' : nodeIdx h i s ≠ nodeIdx h i (l + 1) := by
+                  have := nodeIdx_lt h i l s hiH (by omega) (by omega)
+                  omega
+                rw [lookup_mapSet_ne _ _ _ _ hne']
+                exact hfull s (by omega) hfs
+            · simp [look, lookup_mapSet_self]
+        · rw [rsi_none _ _ _ (by omega)] at hcalc
+          rw [if_neg hlt] at hcalc hpar
+          simp only [List.nil_append] at hcalc
+          refine ih (l + 1) result _ res hl2 ?_ ?_ ?_ (by omega) hcalc
+          · intro key v hv
+            obtain ⟨s, hs, hs2, hs3⟩ := hkeys key v hv
+            exact ⟨s, by omega, hs2, hs3⟩
+          · intro s hs hfs
+            by_cases hsl : s = l + 1
+            · subst hsl; exact absurd (fullAt_succ_sib hfs) hlt
+            · exact hfull s (by omega) hfs
+          · simp [look, hpnone, lookup_mapSet_self, hpar]
+
+
+/-! ### the append path by the bits of the size, and its refresh in `Update` -/
+
+/-- the append path: for every set bit `layer` of the size, the block `(layer, (size >> layer) - 1)` -/
+def peaksBits (hf : HashFns) (L : List Bytes) : Nat → Nat → List Bytes
+  | 0, _ => []
+  | f + 1, layer =>
+    if (L.length / 2 ^ layer) % 2 = 1 then
+      rootH hf (blk L layer (L.length / 2 ^ layer - 1)) :: peaksBits hf L f (layer + 1)
+    else peaksBits hf L f (layer + 1)
+
+theorem peaksBits_length (hf : HashFns) (L L' : List Bytes) (h : L'.length = L.length) :
+    ∀ f layer, (peaksBits hf L' f layer).length = (peaksBits hf L f layer).length := by
+  intro f
+  induction f with
+  | zero => intro layer; rfl
+  | succ f ih =>
+    intro layer
+    simp only [peaksBits, h]
+    split <;> simp [ih]
+
+theorem add_lt_div {a b r : Nat} (hr : r < b) : (a * b + r) / b = a := by
+  have hb : 0 < b := by omega
+  rw [Nat.add_comm, Nat.add_mul_div_right _ _ hb, Nat.div_eq_of_lt hr, Nat.zero_add]
+
+theorem Ctr.path_eq_peaksBits (hf : HashFns) (L : List Bytes) : ∀ (f : Nat) (c : Ctr) (layer : Nat) (lower : List Bytes),
+    Ctr.WF layer c → c.length ≤ f → L = Ctr.flat c ++ lower → lower.length < 2 ^ layer →
+    Ctr.path hf c = peaksBits hf L f layer := by
+  intro f
+  induction f with
+  | zero =>
+    intro c layer lower _ hl _ _
+    have : c = [] := List.eq_nil_of_length_eq_zero (by omega)
+    subst this; rfl
+  | succ f ih =>
+    intro c layer lower hw hl hL hlow
+    have hlen : L.length = Ctr.toNat c * 2 ^ layer + lower.length := by
+      rw [hL, List.length_append, Ctr.length_flat hw]
+    have hdiv : L.length / 2 ^ layer = Ctr.toNat c := by rw [hlen]; exact add_lt_div hlow
+    have hlow' : lower.length < 2 ^ (layer + 1) := by rw [Nat.pow_succ]; omega
+    cases c with
+    | nil =>
+      have hdiv0 : L.length / 2 ^ layer = 0 := by rw [hdiv]; rfl
+      simp only [peaksBits, hdiv0, Ctr.path]
+      rw [if_neg (by omega)]
+      exact ih [] (layer + 1) lower (by simp [Ctr.WF]) (by simp) hL hlow'
+    | cons o r =>
+      simp only [peaksBits, hdiv]
+      simp only [List.length_cons] at hl
+      cases o with
+      | none =>
+        have hev : Ctr.toNat (none :: r) % 2 = 0 := by simp [Ctr.toNat]
+        rw [if_neg (by omega)]
+        simp only [Ctr.path]
+        exact ih r (layer + 1) lower hw.2 (by omega) (by rw [hL]; simp [Ctr.flat]) hlow'
+      | some s =>
+        have hs := hw.1 s rfl
+        have hod : Ctr.toNat (some s :: r) % 2 = 1 := by simp [Ctr.toNat]
+        rw [if_pos hod]
+        simp only [Ctr.path]
+        have hL' : L = Ctr.flat r ++ (s ++ lower) := by rw [hL]; simp [Ctr.flat]
+        have hblk : blk L layer (Ctr.toNat (some s :: r) - 1) = s := by
+          unfold blk
+          have : (Ctr.toNat (some s :: r) - 1) * 2 ^ layer = (Ctr.flat r).length := by
+            rw [Ctr.length_flat hw.2, Nat.pow_succ]
+            simp only [Ctr.toNat, Option.isSome_some, if_true]
+            rw [show 1 + 2 * Ctr.toNat r - 1 = 2 * Ctr.toNat r by omega]; ring
+          rw [this, hL', List.drop_left, ← hs, List.take_left]
+        rw [hblk]
+        congr 1
+        exact ih r (layer + 1) (s ++ lower) hw.2 (by omega) hL' (by simp [hs, Nat.pow_succ]; omega)
+
+theorem peaks_eq_peaksBits (hf : HashFns) (L : List Bytes) (f : Nat) (hf' : L.length < 2 ^ f) :
+    peaks hf L = peaksBits hf L f 0 := by
+  obtain ⟨c, hw, hc, hfl, hto⟩ := exists_ctr L
+  rw [← hfl, ← Ctr.path_eq_peaks hf hw, hfl]
+  exact Ctr.path_eq_peaksBits hf L f c 0 [] hw (Ctr.length_le_of_lt hc (by rw [hto]; exact hf')) (by simp [hfl]) (by simp)
+
+/-- the refresh of the append path in `Update`: an entry is replaced by the recomputed node, if there is one -/
+theorem refreshPath_spec (hf : HashFns) (L L' : List Bytes) (hlen : L'.length = L.length)
+    (calcd : List (Nat × Bytes)) (h : Nat)
+    (hcal1 : ∀ layer idx v, (L.length / 2 ^ layer) % 2 = 1 →
+      locIndex (layer, L.length / 2 ^ layer - 1) h = some idx → calcd.lookup idx = some v →
+      v = rootH hf (blk L' layer (L.length / 2 ^ layer - 1)))
+    (hcal2 : ∀ layer idx, (L.length / 2 ^ layer) % 2 = 1 →
+      locIndex (layer, L.length / 2 ^ layer - 1) h = some idx → calcd.lookup idx = none →
+      rootH hf (blk L layer (L.length / 2 ^ layer - 1)) = rootH hf (blk L' layer (L.length / 2 ^ layer - 1))) :
+    ∀ (f layer : Nat) (out : List Bytes),
+      refreshPath calcd L.length h f layer (peaksBits hf L f layer) = some out → out = peaksBits hf L' f layer := by
+  intro f
+  induction f with
+  | zero =>
+    intro layer out ho
+    simp only [refreshPath, peaksBits, Option.some.injEq] at ho
+    rw [← ho]; rfl
+  | succ f ih =>
+    intro layer out ho
+    simp only [peaksBits, hlen] at ho ⊢
+    by_cases hb : (L.length / 2 ^ layer) % 2 = 1
+    · rw [if_pos hb] at ho ⊢
+      have hb' : ((L.length / 2 ^ layer) % 2 == 0) = false := by
+        rw [hb]; rfl
+      simp only [refreshPath, hb', Bool.false_eq_true, if_false, Nat.shiftRight_eq_div_pow] at ho
+      cases hli : locIndex (layer, L.length / 2 ^ layer - 1) h with
+      | none => rw [hli] at ho; cases ho
+      | some idx =>
+        rw [hli] at ho
+        simp only at ho
+        cases hrest : refreshPath calcd L.length h f (layer + 1) (peaksBits hf L f (layer + 1)) with
+        | none => rw [hrest] at ho; cases ho
+        | some rest' =>
+          rw [hrest] at ho
+          simp only [Option.some.injEq] at ho
+          rw [← ho, ih (layer + 1) rest' hrest]
+          congr 1
+          cases hlk : calcd.lookup idx with
+          | none => exact hcal2 layer idx hb hli hlk
+          | some v => exact hcal1 layer idx v hb hli hlk
+    · rw [if_neg hb] at ho ⊢
+      have hb' : ((L.length / 2 ^ layer) % 2 == 0) = true := by
+        simp; omega
+      cases hP : peaksBits hf L f (layer + 1) with
+      | nil =>
+        rw [hP] at ho
+        simp only [refreshPath, Option.some.injEq] at ho
+        have := peaksBits_length hf L L' hlen f (layer + 1)
+        rw [hP] at this
+        rw [← ho]
+        exact (List.eq_nil_of_length_eq_zero this).symm
+      | cons p rest =>
+        rw [hP] at ho
+        simp only [refreshPath, Nat.shiftRight_eq_div_pow, hb', if_true] at ho
+        rw [← hP] at ho
+        exact ih (layer + 1) out ho
+
+
+/-! ### `Update` of one leaf -/
+
+theorem locIndex_eq' (h l' k' sidx : Nat) (hl : l' + 1 ≤ h) (hk : k' < 2 ^ (h - 1 - l'))
+    (e : locIndex (l', k') h = some sidx) : sidx = 2 ^ (h - l') + k' := by
+  unfold locIndex at e
+  simp only at e
+  have hb : bitLen k' ≤ h - l' := by
+    unfold bitLen
+    split
+    · omega
+    · rename_i h0
+      have : Nat.log2 k' < h - 1 - l' := (Nat.log2_lt h0).2 hk
+      omega
+  rw [Nat.max_eq_left hb] at e
+  split at e
+  · cases e
+  · split at e
+    · cases e
+    · cases e; rfl
+
+theorem sibsFrom_set (hf : HashFns) (L : List Bytes) (p : Nat) (x : Bytes) :
+    ∀ f l, sibsFrom hf (L.set p x) p f l = sibsFrom hf L p f l := by
+  intro f
+  induction f with
+  | zero => intro l; rfl
+  | succ f ih =>
+    intro l
+    simp only [sibsFrom, ih, List.length_set]
+    congr 1
+    have hp : 0 < 2 ^ l := Nat.pow_pos (by decide)
+    have h1 : p / 2 ^ l * 2 ^ l ≤ p := Nat.div_mul_le_self _ _
+    have h2 : p < (p / 2 ^ l + 1) * 2 ^ l := by
+      rw [Nat.mul_comm]; exact Nat.lt_mul_div_succ p hp
+    rw [blk_set_other]
+    generalize p / 2 ^ l = k at h1 h2
+    unfold sibOf
+    split
+    · left; exact h2
+    · right
+      rw [show k - 1 + 1 = k by omega]; exact h1
+
+theorem nodeIdx_zero (h i : Nat) : nodeIdx h i 0 = 2 ^ h + i := by simp [nodeIdx]
+
+theorem sortIdx_single (x : Nat) (hx : x ≠ 0) : sortIdx ([x].filter (· != 0)) = [x] := by
+  have : (x != 0) = true := by simpa using hx
+  simp [List.filter, this, sortIdx, isort, insertBy]
+
+theorem sumBitLen_single (h i : Nat) (hi : i < 2 ^ h) : sumBitLen [2 ^ h + i] = h + 1 := by
+  have := nodeIdx_log2 h i 0 hi (by omega)
+  rw [nodeIdx_zero] at this
+  have hpos : 0 < 2 ^ h := Nat.pow_pos (by decide)
+  simp [sumBitLen, bitLen, this]
+
+theorem update_single (hf : HashFns) (t t' : Tree) (L : List Bytes) (hst : Stored hf t L)
+    (hsize : t.core.size = L.length) (hpath : t.core.path = peaks hf L) (p : Nat) (hp : p < L.length) (u : Bytes)
+    (hu : update hf t [2 ^ getHeight L.length + p] [u] = some t') :
+    t'.core = ⟨rootH hf (L.set p (hf.leaf u)), peaks hf (L.set p (hf.leaf u)), L.length⟩ := by
+  have hn : 1 ≤ L.length := by omega
+  have hh1 : 1 ≤ getHeight L.length := by simp [getHeight]
+  have hi1 := lt_pow_height hn hp
+  have hnH : L.length ≤ 2 ^ (getHeight L.length - 1) := by
+    have := le_two_pow_clog2 L.length hn
+    simpa [getHeight] using this
+  have hiH : p < 2 ^ getHeight L.length :=
+    Nat.lt_of_lt_of_le hi1 (Nat.pow_le_pow_right (by decide) (by omega))
+  have hpos : 0 < 2 ^ getHeight L.length := Nat.pow_pos (by decide)
+  have hsort := sortIdx_single (2 ^ getHeight L.length + p) (by omega)
+  have hfuel := sumBitLen_single (getHeight L.length) p hiH
+  have hM : (L.set p (hf.leaf u)).length = L.length := List.length_set
+  unfold update at hu
+  rw [hsize, if_neg (by omega)] at hu
+  simp only at hu
+  split at hu
+  · cases hu
+  · -- the sibling hashes
+    cases hsib : siblingHashes t [2 ^ getHeight L.length + p] with
+    | none => rw [hsib] at hu; cases hu
+    | some sibs =>
+      rw [hsib] at hu
+      simp only at hu
+      have hsibs : sibs = sibsFrom hf L p (getHeight L.length - 1) 0 := by
+        unfold siblingHashes at hsib
+        simp only [hsize, hsort, hfuel] at hsib
+        have := siblingLoop_single hf t L hst p hp (getHeight L.length + 1 + 1) 0 [] (by omega) (by omega)
+        rw [nodeIdx_zero] at this
+        rcases this with h | h
+        · rw [h] at hsib; simpa using hsib.symm
+        · rw [h.1] at hsib; cases hsib
+      -- the recomputed nodes
+      cases hcalc : calcPathNodes hf ([u].map hf.leaf) L.length [2 ^ getHeight L.length + p] sibs with
+      | none => rw [hcalc] at hu; cases hu
+      | some calcd =>
+        rw [hcalc] at hu
+        simp only at hu
+        unfold calcPathNodes at hcalc
+        have h01 : ((0 + 1 : Nat) == 0) = false := rfl
+        simp only [List.map_cons, List.map_nil, List.length_cons, List.length_nil, bne_self_eq_false,
+          Bool.false_eq_true, if_false, hsort, hfuel, h01] at hcalc
+        have hinit : initResult [hf.leaf u] [2 ^ getHeight L.length + p] [] = [(2 ^ getHeight L.length + p, hf.leaf u)] := by
+          have : (2 ^ getHeight L.length + p == 0) = false := by simp
+          simp [initResult, this, mapSet]
+        rw [hinit, hsibs, ← sibsFrom_set hf L p (hf.leaf u), ← nodeIdx_zero, ← hM] at hcalc
+        have hblk0p : rootH hf (blk (L.set p (hf.leaf u)) 0 p) = hf.leaf u := by
+          have : blk (L.set p (hf.leaf u)) 0 p = [hf.leaf u] := by
+            apply List.ext_getElem?
+            intro j
+            rw [getElem?_blk]
+            cases j with
+            | zero => simp [List.getElem?_set, hp]
+            | succ j => simp
+          rw [this, rootH_singleton]
+        have hblk0 : rootH hf (blk (L.set p (hf.leaf u)) 0 (p / 2 ^ 0)) = hf.leaf u := by
+          simpa using hblk0p
+        have hinv1 : ∀ key v,
+            List.lookup key [(nodeIdx (getHeight (L.set p (hf.leaf u)).length) p 0, hf.leaf u)] = some v →
+            ∃ s, s ≤ 0 ∧ key = nodeIdx (getHeight (L.set p (hf.leaf u)).length) p s ∧
+              v = rootH hf (blk (L.set p (hf.leaf u)) s (p / 2 ^ s)) := by
+          intro key v hv
+          simp only [List.lookup] at hv
+          split at hv
+          · rename_i heq
+            refine ⟨0, Nat.le_refl _, by simpa using heq, ?_⟩
+            rw [hblk0]; exact (Option.some.inj hv).symm
+          · cases hv
+        have hinv2 : ∀ s, s ≤ 0 → fullAt (L.set p (hf.leaf u)).length p s →
+            List.lookup (nodeIdx (getHeight (L.set p (hf.leaf u)).length) p s)
+              [(nodeIdx (getHeight (L.set p (hf.leaf u)).length) p 0, hf.leaf u)]
+              = some (rootH hf (blk (L.set p (hf.leaf u)) s (p / 2 ^ s))) := by
+          intro s hs _
+          have : s = 0 := by omega
+          subst this
+          simp [List.lookup, hblk0p]
+        have hinv3 : look [(nodeIdx (getHeight (L.set p (hf.leaf u)).length) p 0, hf.leaf u)] []
+            (nodeIdx (getHeight (L.set p (hf.leaf u)).length) p 0)
+              = some (rootH hf (blk (L.set p (hf.leaf u)) 0 (p / 2 ^ 0))) := by
+          simp [look, List.lookup, hblk0p]
+        obtain ⟨hA, hB⟩ := calcLoop_single_exact hf (L.set p (hf.leaf u)) p (by rw [hM]; exact hp) []
+          (getHeight (L.set p (hf.leaf u)).length + 1 + 1) 0 _ [] calcd (by omega) hinv1 hinv2 hinv3 (by omega)
+          (by rw [List.append_nil]; exact hcalc)
+        rw [hM] at hA hB
+        -- the stored nodes, the root and the append path
+        cases hsave : saveCalculated (getHeight L.length) calcd t with
+        | none => rw [hsave] at hu; cases hu
+        | some t1 =>
+          rw [hsave] at hu
+          simp only at hu
+          cases hroot : calcd.lookup 2 with
+          | none => rw [hroot] at hu; cases hu
+          | some r =>
+            cases hrp : refreshPath calcd L.length (getHeight L.length) (getHeight L.length) 0 t.core.path with
+            | none => rw [hroot, hrp] at hu; cases hu
+            | some p' =>
+              rw [hroot, hrp] at hu
+              simp only [Option.some.injEq] at hu
+              rw [← hu]
+              simp only
+              -- the root
+              have hr : r = rootH hf (L.set p (hf.leaf u)) := by
+                obtain ⟨s, hs, hs2, hs3⟩ := hA 2 r hroot
+                have : s = getHeight L.length - 1 := (nodeIdx_eq_two _ p s hh1 hi1 (by omega)).1 hs2.symm
+                subst this
+                rw [hs3, Nat.div_eq_of_lt hi1, blk_top_all _ _ (by rw [hM]; exact hnH)]
+              -- the append path
+              have hlt := lt_two_pow_getHeight L.length hn
+              have hp' : p' = peaks hf (L.set p (hf.leaf u)) := by
+                rw [hpath, peaks_eq_peaksBits hf L _ hlt] at hrp
+                rw [peaks_eq_peaksBits hf (L.set p (hf.leaf u)) (getHeight L.length) (by rw [hM]; exact hlt)]
+                refine refreshPath_spec hf L _ hM calcd (getHeight L.length) ?_ ?_ _ 0 p' hrp
+                · intro layer idx v hb hli hlk
+                  have hq1 : 1 ≤ L.length / 2 ^ layer := by
+                    generalize L.length / 2 ^ layer = q at hb; omega
+                  have hp2 : 0 < 2 ^ layer := Nat.pow_pos (by decide)
+                  have hle : 2 ^ layer ≤ L.length := by
+                    have := (Nat.le_div_iff_mul_le hp2).1 hq1; omega
+                  have hlay : layer ≤ getHeight L.length - 1 := by
+                    have : 2 ^ layer ≤ 2 ^ (getHeight L.length - 1) := Nat.le_trans hle hnH
+                    exact (Nat.pow_le_pow_iff_right (by decide)).1 this
+                  have hk : L.length / 2 ^ layer - 1 < 2 ^ (getHeight L.length - 1 - layer) := by
+                    have : L.length / 2 ^ layer ≤ 2 ^ (getHeight L.length - 1) / 2 ^ layer := Nat.div_le_div_right hnH
+                    rw [Nat.pow_div hlay (by decide)] at this
+                    omega
+                  have hidx := locIndex_eq' _ _ _ idx (by omega) hk hli
+                  obtain ⟨s, hs, hs2, hs3⟩ := hA idx v hlk
+                  rw [hidx] at hs2
+                  obtain ⟨e1, e2⟩ := nodeIdx_inj_layer _ p s layer _ hiH (by omega) (by omega)
+                    (Nat.lt_of_lt_of_le hk (Nat.pow_le_pow_right (by decide) (by omega))) hs2.symm
+                  subst e1
+                  rw [hs3, e2]
+                · intro layer idx hb hli hlk
+                  have hq1 : 1 ≤ L.length / 2 ^ layer := by
+                    generalize L.length / 2 ^ layer = q at hb; omega
+                  have hp2 : 0 < 2 ^ layer := Nat.pow_pos (by decide)
+                  have hle : 2 ^ layer ≤ L.length := by
+                    have := (Nat.le_div_iff_mul_le hp2).1 hq1; omega
+                  have hlay : layer ≤ getHeight L.length - 1 := by
+                    have : 2 ^ layer ≤ 2 ^ (getHeight L.length - 1) := Nat.le_trans hle hnH
+                    exact (Nat.pow_le_pow_iff_right (by decide)).1 this
+                  have hk : L.length / 2 ^ layer - 1 < 2 ^ (getHeight L.length - 1 - layer) := by
+                    have : L.length / 2 ^ layer ≤ 2 ^ (getHeight L.length - 1) / 2 ^ layer := Nat.div_le_div_right hnH
+                    rw [Nat.pow_div hlay (by decide)] at this
+                    omega
+                  have hidx := locIndex_eq' _ _ _ idx (by omega) hk hli
+                  by_cases hanc : p / 2 ^ layer = L.length / 2 ^ layer - 1
+                  · exfalso
+                    have hfull : fullAt L.length p layer := by
+                      unfold fullAt
+                      rw [hanc, show L.length / 2 ^ layer - 1 + 1 = L.length / 2 ^ layer by omega]
+                      exact Nat.div_mul_le_self _ _
+                    have := hB layer hlay hfull
+                    rw [nodeIdx, hanc, ← hidx, hlk] at this
+                    cases this
+                  · rw [blk_set_other]
+                    have h1 : p / 2 ^ layer * 2 ^ layer ≤ p := Nat.div_mul_le_self _ _
+                    have h2 : p < (p / 2 ^ layer + 1) * 2 ^ layer := by
+                      rw [Nat.mul_comm]; exact Nat.lt_mul_div_succ p hp2
+                    generalize p / 2 ^ layer = a at hanc h1 h2
+                    generalize L.length / 2 ^ layer - 1 = b at hanc
+                    rcases Nat.lt_or_gt_of_ne hanc with hlt' | hgt'
+                    · left
+                      have : (a + 1) * 2 ^ layer ≤ b * 2 ^ layer := Nat.mul_le_mul_right _ (by omega)
+                      omega
+                    · right
+                      have : (b + 1) * 2 ^ layer ≤ a * 2 ^ layer := Nat.mul_le_mul_right _ (by omega)
+                      omega
+              rw [hr, hp']
+
+
+/-! ### the `hash -> location` index and `GenerateProof` for one leaf -/
+
+/-- every entry of the `hash -> location` index is a leaf at its position or a branch node, and every
+leaf has its entry -/
+def H2L (hf : HashFns) (t : Tree) (L : List Bytes) : Prop :=
+  (∀ x loc, (x, loc) ∈ t.h2l → (∃ k, loc = (0, k) ∧ L[k]? = some x) ∨ (∃ a b, x = hf.branch a b)) ∧
+  (∀ k x, L[k]? = some x → (x, (0, k)) ∈ t.h2l)
+
+theorem storeLoop_h2l (hf : HashFns) (height size : Nat) : ∀ (f h : Nat) (path : List Bytes) (cur : Bytes) (t0 : Tree),
+    (∀ e, e ∈ t0.h2l → e ∈ (storeLoop hf height size f h path cur t0).1.h2l) ∧
+    (∀ e, e ∈ (storeLoop hf height size f h path cur t0).1.h2l → e ∈ t0.h2l ∨ ∃ a b, e.1 = hf.branch a b) := by
+  intro f
+  induction f with
+  | zero => intro h path cur t0; simp only [storeLoop]; exact ⟨fun e he => he, fun e he => Or.inl he⟩
+  | succ f ih =>
+    intro h path cur t0
+    have hsave : ∀ (x : Bytes) (loc : Loc) (rest : List Bytes),
+        (∀ e, e ∈ t0.h2l → e ∈ (storeLoop hf height size f (h + 1) rest (hf.branch x cur)
+          (t0.saveNode (hf.branch x cur) loc)).1.h2l) ∧
+        (∀ e, e ∈ (storeLoop hf height size f (h + 1) rest (hf.branch x cur)
+          (t0.saveNode (hf.branch x cur) loc)).1.h2l → e ∈ t0.h2l ∨ ∃ a b, e.1 = hf.branch a b) := by
+      intro x loc rest
+      obtain ⟨h1, h2⟩ := ih (h + 1) rest (hf.branch x cur) (t0.saveNode (hf.branch x cur) loc)
+      constructor
+      · intro e he; exact h1 e (by simp [Tree.saveNode, he])
+      · intro e he
+        rcases h2 e he with h3 | h3
+        · simp only [Tree.saveNode, List.mem_cons] at h3
+          rcases h3 with h3 | h3
+          · right; exact ⟨x, cur, by rw [h3]⟩
+          · left; exact h3
+        · right; exact h3
+    simp only [storeLoop]
+    split
+    · split
+      · exact ⟨fun e he => he, fun e he => Or.inl he⟩
+      · split
+        · split
+          · exact ⟨fun e he => he, fun e he => Or.inl he⟩
+          · exact hsave _ _ _
+        · exact hsave _ _ _
+    · exact ih _ _ _ _
+
+theorem append_h2l (hf : HashFns) (t : Tree) (L : List Bytes) (v : Bytes) (hh : H2L hf t L)
+    (hsize : t.core.size = L.length) : H2L hf (append hf t v).1 (L ++ [hf.leaf v]) := by
+  -- the index of the result: the entries of `t`, the new leaf, branch nodes
+  have key : (∀ e, e ∈ (t.saveNode (hf.leaf v) (0, t.core.size)).h2l → e ∈ (append hf t v).1.h2l) ∧
+      (∀ e, e ∈ (append hf t v).1.h2l →
+        e ∈ (t.saveNode (hf.leaf v) (0, t.core.size)).h2l ∨ ∃ a b, e.1 = hf.branch a b) := by
+    unfold append
+    by_cases hz : t.core.size = 0
+    · simp only [hz, if_true]
+      split <;> exact ⟨fun e he => he, fun e he => Or.inl he⟩
+    · simp only [hz, if_false]
+      have := storeLoop_h2l hf (getHeight t.core.size) t.core.size (getHeight t.core.size) 0 t.core.path
+        (hf.leaf v) (t.saveNode (hf.leaf v) (0, t.core.size))
+      revert this
+      generalize storeLoop hf (getHeight t.core.size) t.core.size (getHeight t.core.size) 0 t.core.path
+        (hf.leaf v) (t.saveNode (hf.leaf v) (0, t.core.size)) = sl
+      intro this
+      obtain ⟨t2, b⟩ := sl
+      cases b <;> cases appendCore hf t.core v <;> exact this
+  obtain ⟨k1, k2⟩ := key
+  constructor
+  · intro x loc hm
+    rcases k2 _ hm with h | ⟨a, b, h⟩
+    · simp only [Tree.saveNode, List.mem_cons] at h
+      rcases h with h | h
+      · left
+        obtain ⟨e1, e2⟩ := Prod.mk.inj h
+        exact ⟨t.core.size, e2, by rw [hsize, e1]; simp⟩
+      · rcases hh.1 x loc h with ⟨k, e1, e2⟩ | h'
+        · left
+          refine ⟨k, e1, ?_⟩
+          have : k < L.length := by
+            rcases Nat.lt_or_ge k L.length with h | h
+            · exact h
+            · rw [List.getElem?_eq_none h] at e2; cases e2
+          rw [List.getElem?_append_left this]; exact e2
+        · right; exact h'
+    · right; exact ⟨a, b, h⟩
+  · intro k x hk
+    apply k1
+    simp only [Tree.saveNode, List.mem_cons]
+    by_cases hlt : k < L.length
+    · right
+      rw [List.getElem?_append_left hlt] at hk
+      exact hh.2 k x hk
+    · left
+      have hk' : k = L.length := by
+        rcases Nat.lt_or_ge k (L ++ [hf.leaf v]).length with h | h
+        · simp at h; omega
+        · rw [List.getElem?_eq_none h] at hk; cases hk
+      subst hk'
+      simp at hk
+      rw [hsize, hk]
+
+theorem lookup_mem {α β : Type} [BEq α] [LawfulBEq α] (m : List (α × β)) (k : α) (v : β)
+    (h : m.lookup k = some v) : (k, v) ∈ m := by
+  induction m with
+  | nil => simp [List.lookup] at h
+  | cons a r ih =>
+    obtain ⟨a1, a2⟩ := a
+    simp only [List.lookup] at h
+    by_cases hk : k = a1
+    · subst hk; simp at h; subst h; simp
+    · have : (k == a1) = false := by simpa using hk
+      simp only [this] at h
+      exact List.mem_cons_of_mem _ (ih h)
+
+theorem lookup_isSome_of_mem {α β : Type} [BEq α] [LawfulBEq α] (m : List (α × β)) (k : α) (v : β)
+    (h : (k, v) ∈ m) : ∃ v', m.lookup k = some v' := by
+  induction m with
+  | nil => cases h
+  | cons a r ih =>
+    obtain ⟨a1, a2⟩ := a
+    simp only [List.lookup]
+    by_cases hk : k = a1
+    · subst hk; simp
+    · have : (k == a1) = false := by simpa using hk
+      simp only [this]
+      simp only [List.mem_cons, Prod.mk.injEq] at h
+      rcases h with h | h
+      · exact absurd h.1 hk
+      · exact ih h
+
+/-- with distinct leaf hashes that are never branch hashes, the index finds every leaf -/
+theorem getLoc_leaf (hf : HashFns) (t : Tree) (L : List Bytes) (hh : H2L hf t L) (hnd : L.Nodup)
+    (hsep : ∀ a b x, x ∈ L → hf.branch a b ≠ x) (k : Nat) (x : Bytes) (hk : L[k]? = some x) :
+    t.getLoc x = some (0, k) := by
+  obtain ⟨loc, hloc⟩ := lookup_isSome_of_mem t.h2l x (0, k) (hh.2 k x hk)
+  unfold Tree.getLoc
+  rw [hloc]
+  rcases hh.1 x loc (lookup_mem _ _ _ hloc) with ⟨k', e1, e2⟩ | ⟨a, b, e⟩
+  · rw [e1]
+    have hklt : k < L.length := by
+      rcases Nat.lt_or_ge k L.length with h | h
+      · exact h
+      · rw [List.getElem?_eq_none h] at hk; cases hk
+    have hk'lt : k' < L.length := by
+      rcases Nat.lt_or_ge k' L.length with h | h
+      · exact h
+      · rw [List.getElem?_eq_none h] at e2; cases e2
+    have : k' = k := by
+      rw [List.getElem?_eq_getElem hklt] at hk
+      rw [List.getElem?_eq_getElem hk'lt] at e2
+      have h1 := Option.some.inj hk
+      have h2 := Option.some.inj e2
+      exact (List.getElem_inj hnd).1 (by rw [h1, h2])
+    rw [this]
+  · exfalso
+    exact hsep a b x (List.mem_of_getElem? hk) e.symm
+
+
+theorem locIndex_some' (h l' k' : Nat) (hl : l' + 1 ≤ h) (hk : k' < 2 ^ (h - 1 - l')) (hb : h ≤ 30) :
+    locIndex (l', k') h = some (2 ^ (h - l') + k') := by
+  have hb2 : bitLen k' ≤ h - l' := by
+    unfold bitLen
+    split
+    · omega
+    · rename_i h0
+      have : Nat.log2 k' < h - 1 - l' := (Nat.log2_lt h0).2 hk
+      omega
+  have h1 : 2 ^ (h - 1 - l') * 2 = 2 ^ (h - l') := by
+    rw [← Nat.pow_succ]; congr 1; omega
+  have h30 : 2 ^ (h - l') ≤ 2 ^ 30 := Nat.pow_le_pow_right (by decide) (by omega)
+  have e31 : (2:Nat) ^ 31 = 2147483648 := by decide
+  have e30 : (2:Nat) ^ 30 = 1073741824 := by decide
+  unfold locIndex
+  simp only
+  rw [if_neg (by omega), Nat.max_eq_left hb2, if_neg (by omega)]
+
+theorem blk_leaf (L : List Bytes) (k : Nat) (x : Bytes) (hk : L[k]? = some x) : blk L 0 k = [x] := by
+  apply List.ext_getElem?
+  intro j
+  rw [getElem?_blk]
+  cases j with
+  | zero => simp [hk]
+  | succ j => simp
+
+/-- `GenerateProof` for one leaf of a tree with an exact store returns its LIP-0031 sibling hashes -/
+theorem generateProof_single (hf : HashFns) (t : Tree) (L : List Bytes) (hst : Stored hf t L)
+    (hsize : t.core.size = L.length) (hh : H2L hf t L) (hnd : L.Nodup)
+    (hsep : ∀ a b x, x ∈ L → hf.branch a b ≠ x) (k : Nat) (x : Bytes) (hk : L[k]? = some x)
+    (hb : getHeight L.length ≤ 30) :
+    generateProof t [x] = some ⟨L.length, [2 ^ getHeight L.length + k],
+      sibsFrom hf L k (getHeight L.length - 1) 0⟩ := by
+  have hkl : k < L.length := by
+    rcases Nat.lt_or_ge k L.length with h | h
+    · exact h
+    · rw [List.getElem?_eq_none h] at hk; cases hk
+  have hn : 1 ≤ L.length := by omega
+  have hi1 := lt_pow_height hn hkl
+  have hh1 : 1 ≤ getHeight L.length := by simp [getHeight]
+  have hiH : k < 2 ^ getHeight L.length :=
+    Nat.lt_of_lt_of_le hi1 (Nat.pow_le_pow_right (by decide) (by omega))
+  have hpos : 0 < 2 ^ getHeight L.length := Nat.pow_pos (by decide)
+  unfold generateProof
+  rw [hsize, if_neg (by omega)]
+  have hidx : getIndexes t (getHeight L.length) [x] = some [2 ^ getHeight L.length + k] := by
+    simp only [getIndexes, getLoc_leaf hf t L hh hnd hsep k x hk]
+    rw [locIndex_some' _ 0 k (by omega) (by simpa using hi1) hb]
+    simp
+  rw [hidx]
+  simp only
+  unfold siblingHashes
+  simp only [hsize, sortIdx_single (2 ^ getHeight L.length + k) (by omega),
+    sumBitLen_single (getHeight L.length) k hiH]
+  have := siblingLoop_single hf t L hst k hkl (getHeight L.length + 1 + 1) 0 [] (by omega) (by omega)
+  rw [nodeIdx_zero] at this
+  rcases this with h | h
+  · rw [h]; simp
+  · omega
+
+theorem verify_generated_single (hf : HashFns) (L : List Bytes) (k : Nat) (x : Bytes) (hk : L[k]? = some x)
+    (hb : getHeight L.length ≤ 30) :
+    verifyProof hf [x] ⟨L.length, [2 ^ getHeight L.length + k], sibsFrom hf L k (getHeight L.length - 1) 0⟩
+      (rootH hf L) = true := by
+  have hkl : k < L.length := by
+    rcases Nat.lt_or_ge k L.length with h | h
+    · exact h
+    · rw [List.getElem?_eq_none h] at hk; cases hk
+  have hn : 1 ≤ L.length := by omega
+  have hi1 := lt_pow_height hn hkl
+  have hnH : L.length ≤ 2 ^ (getHeight L.length - 1) := by
+    have := le_two_pow_clog2 L.length hn
+    simpa [getHeight] using this
+  apply verify_single_complete hf L.length k hn hkl hb
+  have := walk_val hf L k hkl [] (getHeight L.length - 1) 0
+  simp only [Nat.pow_zero, Nat.div_one, Nat.zero_add, List.append_nil] at this
+  rw [blk_leaf L k x hk, rootH_singleton, Nat.div_eq_of_lt hi1, blk_top_all L _ hnH] at this
+  exact this
+
+
 end LiskVerif.RMT
